@@ -42,8 +42,9 @@ def pickFresh (par : Parent) : Addr :=
   ((List.range n).map (· + 1)).find? (fun a => !par.live a) |>.getD (n + 1)
 
 /-- answer of the harness parent to a realloc: in place iff asked to and the capacity suffices -/
-def reallocDest (par : Parent) (a : Addr) (new : Nat) (keep : Bool) : Addr :=
-  match par.get a with
+def reallocDest (par : Parent) (a : Addr) (old new : Nat) (keep : Bool) : Addr :=
+  if !par.hasRealloc then (if old ≥ new then a else pickFresh par)   -- emulation: no choice
+  else match par.get a with
   | some b => if keep && new ≤ b.cap then a else pickFresh par
   | none => pickFresh par
 
@@ -103,7 +104,7 @@ def plain (st : St) (s : Seq) (p : Parsed) : St × List String :=
   | .re id new keep =>
     let p := addrOf st id
     let old := match s.par.get p with | some b => b.size | none => 0
-    let dest := if p = 0 then pickFresh s.par else reallocDest s.par p new keep
+    let dest := if p = 0 then pickFresh s.par else reallocDest s.par p old new keep
     let (s', r) := s.step (.realloc p old new dest sidRe)
     let a := match r with | .ptr a => a | _ => 0
     (setId { st with seq := some s' } id a, [blkLine s'.par a, statLine s'.tr])
@@ -152,7 +153,7 @@ def pointAfter : PC → Option String
   | _ => none
 
 def oracleFor (sh : Sh) (keep : Bool) : PC → Addr
-  | .parRealloc a _ new _ => if a = 0 then pickFresh sh.par else reallocDest sh.par a new keep
+  | .parRealloc a old new _ => if a = 0 then pickFresh sh.par else reallocDest sh.par a old new keep
   | _ => pickFresh sh.par
 
 /-- run pool entry `i` to completion without interruption; returns the address it hands to the client -/
@@ -250,14 +251,22 @@ def injected (st : St) (s : Seq) (main : Parsed) (inj : Inj) : St × List String
 def parseLevel : String → Option Level
   | "none" => some .none | "bytes" => some .bytes | "stacks" => some .stacks | _ => none
 
+/-- configuration of the wrapped allocator: which optional vtable entries it has -/
+def parseCfg : String → Option (Bool × Bool)
+  | "full" => some (true, true) | "norealloc" => some (false, true)
+  | "nocalloc" => some (true, false) | "minimal" => some (false, false) | _ => none
+
+def newTracer (st : St) (lvl frames cfg : String) : St × List String :=
+  match st.seq, parseLevel lvl, parseSize? frames, parseCfg cfg with
+  | none, some lvl, some f, some (hr, hc) =>
+    let s := Seq.new lvl f { blocks := [], hasRealloc := hr, hasCalloc := hc }
+    ({ st with seq := some s, ids := [], inj := none }, [statLine s.tr])
+  | _, _, _, _ => (st, ["bad-op"])
+
 def step (st : St) (t : List String) : St × List String :=
   match t with
-  | ["new", lvl, frames] =>
-    match st.seq, parseLevel lvl, parseSize? frames with
-    | none, some lvl, some f =>
-      let s := Seq.new lvl f
-      ({ st with seq := some s, ids := [], inj := none }, [statLine s.tr])
-    | _, _, _ => (st, ["bad-op"])
+  | ["new", lvl, frames] => newTracer st lvl frames "full"
+  | ["new", lvl, frames, cfg] => newTracer st lvl frames cfg
   | ["depth", _] => (st, [])
   | ["destroy"] =>
     match st.seq with
